@@ -41,8 +41,10 @@ structure Marks where
 def Marks.get (M : Marks) (r : Nat) (i : Int) : Bool := M.m.getD (r, i) false
 def Marks.set (M : Marks) (r : Nat) (i : Int) : Marks := ⟨M.m.insert (r, i) true⟩
 
-/-- `getAvailableSecondsInSlot`: `max(0, G - used)` -/
-def availSecs (G : Int) (s : Slot) : Rat := max 0 ((G : Rat) - s.used)
+/-- `getAvailableSecondsInSlot`: `max(0, G - used)`, a remainder below a microsecond counting as none -/
+def availSecs (G : Int) (s : Slot) : Rat :=
+  let a := max 0 ((G : Rat) - s.used)
+  if a < 1 / 1000000 then 0 else a
 
 /-- the ledger part of `ResourceScenario.book`: take everything that is left of the slot -/
 def Slot.book (G : Int) (s : Slot) (t : Nat) : Slot :=
